@@ -175,8 +175,15 @@ static inline void load_ext_natives (MIR_context_t ctx) {
 }
 
 // Runs every input in one fresh context. Returns "" or an error description (library error callback).
+typedef std::function<void (MIR_context_t)> Loader;
+static inline std::string run_engine_l (const Loader &loader, Engine e, const std::vector<Input> &ins, std::vector<Obs> &out,
+                                        const std::vector<int> &entry_res);
 static inline std::string run_engine (const std::string &text, Engine e, const std::vector<Input> &ins, std::vector<Obs> &out,
                                       const std::vector<int> &entry_res) {
+  return run_engine_l ([&] (MIR_context_t c) { MIR_scan_string (c, text.c_str ()); }, e, ins, out, entry_res);
+}
+static inline std::string run_engine_l (const Loader &loader, Engine e, const std::vector<Input> &ins, std::vector<Obs> &out,
+                                        const std::vector<int> &entry_res) {
   MIR_context_t ctx = MIR_init ();
   std::string err;
   volatile bool gen_inited = false;
@@ -185,7 +192,7 @@ static inline std::string run_engine (const std::string &text, Engine e, const s
     return err;  // context abandoned (error function is documented as non-returning)
   }
   MIR_set_error_func (ctx, err_func);
-  MIR_scan_string (ctx, text.c_str ());
+  loader (ctx);
   for (MIR_module_t m = DLIST_HEAD (MIR_module_t, *MIR_get_module_list (ctx)); m != NULL; m = DLIST_NEXT (MIR_module_t, m))
     MIR_load_module (ctx, m);
   load_ext_natives (ctx);
